@@ -970,7 +970,7 @@ func (b *subgraphBackend) Resolve(parent *gObj, fd *gFieldDef, args map[string]a
 		// external: only answerable where a parent's @provides covers it
 		if prov, _ := parent.Ctx["provided"].(map[string]bool); prov[f.Name] {
 			if b.served != nil {
-				*b.served = append(*b.served, parent.Type+"|"+parent.ID+"|"+f.Name)
+				*b.served = append(*b.served, parent.Type+"|"+parent.ID+"|"+f.Name+servedNested(path))
 			}
 			return s.universeValue(parent.Type, parent.ID, f), nil
 		}
@@ -978,7 +978,7 @@ func (b *subgraphBackend) Resolve(parent *gObj, fd *gFieldDef, args map[string]a
 		return nil, fmt.Errorf("external field")
 	}
 	if b.served != nil {
-		*b.served = append(*b.served, parent.Type+"|"+parent.ID+"|"+f.Name)
+		*b.served = append(*b.served, parent.Type+"|"+parent.ID+"|"+f.Name+servedNested(path))
 	}
 	if f.Requires != "" {
 		repr, _ := parent.Ctx["repr"].(map[string]any)
@@ -1040,4 +1040,14 @@ func sortedStrings(m map[string]bool) []string {
 	}
 	sort.Strings(out)
 	return out
+}
+
+// servedNested marks a provenance entry whose object was reached through a reference inside the
+// answer (not directly as _entities[i]): such data does not belong to one representation.
+func servedNested(path []any) string {
+	// [<_entities or its alias in a merged fetch>, i, field] is a direct field of representation i
+	if len(path) <= 3 {
+		return ""
+	}
+	return "|nested"
 }
